@@ -13,6 +13,7 @@ import Driver.Crash
 import Driver.Timeout
 import Driver.Files
 import Driver.Parse
+import Driver.Bridge
 
 open Lean Driver
 
@@ -32,6 +33,8 @@ def dispatch (op : String) (inp out : Json) : Json :=
   | "files" => runFilesOp inp out
   | "parse" => runParseOp inp out
   | "lookuparg" => runLookupOp inp out
+  | "bridge" => runBridgeOp inp out
+  | "ccomplete" => runCCompleteOp inp out
   | "timeoutrace" => runTimeoutOp inp out
   | _ => Json.mkObj [("same", Json.bool false), ("diff", Json.str s!"unknown op {op}"), ("fails", Json.arr #[])]
 
